@@ -3240,12 +3240,20 @@ def refcount_rules(ctx):
         f = ctx.fn(TT + '::' + nm)
         if f is None:
             continue
-        am = ctx.sites(f, 'Entry::and_modify', exact=1)
-        oi = ctx.sites(f, 'Entry::or_insert', exact=1)
-        for p_ in oi:
-            ctx.const_arg(f, p_, 1, 1, 'a first registration starts the count at 1')
-        inc = [c for c in f.closures if has_bin(c, ('Add', 'AddWithOverflow'), 1)]
-        ctx.check(len(inc) == 1, 'refcount|%s|increment' % f.path, '%s increments an existing count by one (and_modify closure)' % nm, f, f.line)
+        # two equivalent idioms: entry(id).and_modify(|x| *x += 1).or_insert(1)  |  *entry(id).or_insert(0) += 1
+        am = [cpoint(c) for c in f.calls_to('Entry::and_modify')]
+        oi = ctx.sites(f, ['Entry::or_insert', 'Entry::or_default'], exact=1)
+        if am:
+            ctx.check(len(am) == 1, 'refcount|%s|and_modify' % f.path, 'one and_modify', f, f.line)
+            for p_ in oi:
+                ctx.const_arg(f, p_, 1, 1, 'a first registration starts the count at 1')
+            inc = [c for c in f.closures if has_bin(c, ('Add', 'AddWithOverflow'), 1)]
+            ctx.check(len(inc) == 1, 'refcount|%s|increment' % f.path, '%s increments an existing count by one (and_modify closure)' % nm, f, f.line)
+        else:
+            for p_ in oi:
+                if p_.call.matches('Entry::or_insert'):
+                    ctx.const_arg(f, p_, 1, 0, 'a missing entry counts as 0 before the increment')
+            ctx.check(has_bin(f, ('Add', 'AddWithOverflow'), 1), 'refcount|%s|increment' % f.path, '%s increments the (possibly fresh) count by one' % nm, f, f.line)
         ctx.held(f, am + oi, TTSTATE)
     for nm in ('deallocate_read_transaction', 'clear_pending_non_durable_commits'):
         f = ctx.fn(TT + '::' + nm)
